@@ -1,6 +1,9 @@
 package main
 
 import (
+	"os"
+	"os/exec"
+	"sort"
 	"fmt"
 	"strings"
 
@@ -307,6 +310,61 @@ func init() {
 			}
 			out.Sample(map[string]interface{}{"ops": "run; Set(A=5); run; child=Filter; Set(A=6); run; run child; Set(empty); run; run child", "observed": got})
 		}
+		// ---- configuration histories: the verdict under a configuration must not depend on which configurations the same
+		// registry (and process) has seen before: the variants are applied in both orders, each order in its own process
+		{
+			self, _ := os.Executable()
+			fwd, e1 := exec.Command(self, "c11seq", "fwd").Output()
+			rev, e2 := exec.Command(self, "c11seq", "rev").Output()
+			if e1 != nil || e2 != nil {
+				out.Violate("C11|history-run-failed", fmt.Sprintf("configuration history run failed: %v %v", e1, e2), nil, nil, nil)
+			} else {
+				fl, rl := strings.Split(strings.TrimSpace(string(fwd)), "\n"), strings.Split(strings.TrimSpace(string(rev)), "\n")
+				rm := map[string]string{}
+				for _, l := range rl {
+					if i := strings.Index(l, "="); i > 0 {
+						rm[l[:i]] = l[i+1:]
+					}
+				}
+				n := 0
+				changed := map[string]bool{}
+				byLintObj := map[string]map[string]bool{}
+				for _, l := range fl {
+					i := strings.Index(l, "=")
+					if i < 0 {
+						continue
+					}
+					n++
+					k, v := l[:i], l[i+1:]
+					if rv, ok := rm[k]; ok && rv != v {
+						parts := strings.Split(k, "|")
+						out.Violate("C11|config-history-dependent:"+parts[0], fmt.Sprintf("%s on %s under configuration %q gives %q when the variants are applied in one order and %q in the reverse order", parts[0], parts[1], parts[2], v, rv),
+							map[string]interface{}{"lint": parts[0], "object": parts[1], "variant": parts[2], "how": "harness c11seq fwd  vs  harness c11seq rev"}, rv, v)
+					}
+					parts := strings.Split(k, "|")
+					lo := parts[0] + "|" + parts[1]
+					if byLintObj[lo] == nil {
+						byLintObj[lo] = map[string]bool{}
+					}
+					byLintObj[lo][v] = true
+				}
+				for lo, vs := range byLintObj {
+					if len(vs) > 1 {
+						changed[strings.Split(lo, "|")[0]] = true
+					}
+				}
+				out.Stats["config_history_results"] = n
+				// setting an option must be able to change the lint's behaviour (otherwise the test above is vacuous)
+				for ln := range cfgVariants {
+					if g.CertificateLints().ByName(ln) == nil && g.RevocationListLints().ByName(ln) == nil {
+						continue
+					}
+					if !changed[ln] {
+						out.Violate("C11|option-has-no-effect:"+ln, "no corpus object shows a different verdict of "+ln+" under any of its option values: setting the option no longer changes the lint's behaviour", ln, nil, nil)
+					}
+				}
+			}
+		}
 		// ---- scripted configurable lints vs the model (in-Coq correspondence)
 		nCases := 260
 		if tier() == "thorough" {
@@ -430,4 +488,81 @@ func minInt(a, b int) int {
 		return a
 	}
 	return b
+}
+
+// ---------- configuration histories across processes ----------
+
+type cfgVariant struct{ id, text string }
+
+var cfgVariants = map[string][]cfgVariant{
+	"e_rsa_fermat_factorization":    {{"default", ""}, {"rounds0", "[e_rsa_fermat_factorization]\nRounds = 0\n"}, {"rounds2", "[e_rsa_fermat_factorization]\nRounds = 2\n"}},
+	"e_subj_contains_html_entities": {{"default", ""}, {"skip", "[e_subj_contains_html_entities]\nSkip = true\n"}},
+	"e_subj_orgunit_in_ca_cert":     {{"default", ""}, {"cross", "[e_subj_orgunit_in_ca_cert]\nCrossCert = true\n"}},
+	"e_crl_next_update_invalid":     {{"default", ""}, {"ca", "[e_crl_next_update_invalid]\nSubscriberCRL = false\n"}},
+}
+
+// c11seq <order>: for every configurable lint and every object on which its option can matter, run the lint under its
+// configuration variants in the given order (fwd / rev) on one registry, printing "lint|object|variant=status:details"
+func init() {
+	commands["c11seq"] = func(args []string) error {
+		rev := len(args) > 0 && args[0] == "rev"
+		corpus := loadCorpus()
+		g := lint.GlobalRegistry()
+		var lines []string
+		for _, ln := range sortedKeys(cfgVariants) {
+			vs := append([]cfgVariant{}, cfgVariants[ln]...)
+			if rev {
+				for i, j := 0, len(vs)-1; i < j; i, j = i+1, j-1 {
+					vs[i], vs[j] = vs[j], vs[i]
+				}
+			}
+			fr, err := g.Filter(lint.FilterOptions{IncludeNames: []string{ln}})
+			if err != nil {
+				continue
+			}
+			if g.CertificateLints().ByName(ln) != nil {
+				for _, cc := range corpus.Certs {
+					// only objects on which the lint does something under the empty configuration
+					fr.SetConfiguration(lint.NewEmptyConfig())
+					_ = cc
+				}
+				for _, v := range vs {
+					cfg, err := lint.NewConfigFromString(v.text)
+					if err != nil {
+						continue
+					}
+					fr.SetConfiguration(cfg)
+					for _, cc := range corpus.Certs {
+						c, err := x509.ParseCertificate(cc.DER)
+						if err != nil {
+							continue
+						}
+						r := zlint.LintCertificateEx(c, fr).Results[ln]
+						if r == nil || r.Status == lint.NA || r.Status == lint.NE {
+							continue
+						}
+						lines = append(lines, fmt.Sprintf("%s|%s|%s=%d:%s", ln, cc.File, v.id, r.Status, r.Details))
+					}
+				}
+			} else {
+				for _, v := range vs {
+					cfg, err := lint.NewConfigFromString(v.text)
+					if err != nil {
+						continue
+					}
+					fr.SetConfiguration(cfg)
+					for _, cc := range corpus.CRLs {
+						r := zlint.LintRevocationListEx(cc.CRL, fr).Results[ln]
+						if r == nil || r.Status == lint.NA || r.Status == lint.NE {
+							continue
+						}
+						lines = append(lines, fmt.Sprintf("%s|%s|%s=%d:%s", ln, cc.File, v.id, r.Status, r.Details))
+					}
+				}
+			}
+		}
+		sort.Strings(lines)
+		fmt.Println(strings.Join(lines, "\n"))
+		return nil
+	}
 }
